@@ -118,6 +118,7 @@ func init() {
 			return err
 		}
 		ctx := context.Background()
+		hung := 0 // requests abandoned after their deadline (their goroutines may still be spinning)
 		for i := *start; i < len(cases); i++ {
 			var c totCase
 			if err := json.Unmarshal(cases[i], &c); err != nil {
@@ -150,8 +151,30 @@ func init() {
 					}
 				})
 				if p != "" {
-					res.Problems = append(res.Problems, "lexer:"+p)
+					res.Problems = append(res.Problems, "lexer@0:0: "+p)
+					if p == "timeout" {
+						res.LexCapped = true // Lexer.Next did not return: the same loop would spin inside every request
+						hung++
+					}
 				}
+			}
+			if hung >= 6 {
+				// several abandoned requests may still be spinning in this process: stop it, the orchestrator carries on
+				res.Problems = append(res.Problems, "skipped: too many abandoned requests in this process")
+				b, _ := json.Marshal(res)
+				w.Write(b)
+				w.WriteByte('\n')
+				w.Flush()
+				fh.Close()
+				os.Exit(3)
+			}
+			if res.LexCapped {
+				// the lexer does not terminate on this text: the parser would spin forever inside every request
+				b, _ := json.Marshal(res)
+				w.Write(b)
+				w.WriteByte('\n')
+				w.Flush()
+				continue
 			}
 
 			u := fileURI(filepath.Join(dir, fmt.Sprintf("t%d.journal", i)))
@@ -174,6 +197,9 @@ func init() {
 				}
 				if p != "" {
 					res.Problems = append(res.Problems, fmt.Sprintf("%s@%d:%d: %s (%.0f ms, deadline %.0f ms)", kind, l, ch, p, ms, float64(d.Milliseconds())))
+					if p == "timeout" {
+						hung++
+					}
 				}
 			}
 			note("didOpen+publish", 0, 0, el, p)
